@@ -71,6 +71,10 @@ CLAIMED = {
           "Histories of 3-13 steps (bindings from earlier bindings, shadowing, four destructuring forms, closures capturing earlier bindings, a type alias and a function over it, imports, expression steps incl. the previous result through `~`) are split into lines at generated places with 0-2 rejected lines of eight kinds in between; every accepted line's value, and after every line the variable names and each variable's value, must equal the single program's; the C06 heap invariants run after every worker step (local compaction, orphan release). Exploration only.",
           "The single program is run by the synchronous driver; type aliases are hoisted to its front (a program allows them only there) and start a line in the session. Function values are compared by captured values. Steps never evaluate to nil.",
           "DESIGN.md §4 C11"),
+  "C02": ("mutated harvested programs + proptest-generated nested control-flow programs; oracle: differential against an independent reference evaluator of docs/spec.md written over the parser's AST",
+          "The reference evaluator (chains as infallible pipes, nil short-circuit between steps, blocks/branches/condition-consequence, every pattern form, tuples/spreads/field access, functions, closures, tail calls, strings with holes, std modules from their source, builtins by the C12 models) is validated each run against ~890 harvested programs pinned by the repository's tests. Stream A applies 1-3 token edits to the harvested programs it covers; stream B generates integer programs nesting literal/tuple/union switches, patterns that bind and then fail, sequences with bindings, closures, failing mid-sequence matches, inner blocks failing as a whole, ripple chains, shadowing, spreads, early-nil sequence steps. Exploration only.",
+          "Processes, select, I/O, function equality, context-inferred closure parameters and tests against type variables are outside the evaluator (discarded, counted). Five recorded compiler defects are attributed by the semantic situation the reference run met (a partial-typed parameter with another layout, a branch that binds and ends in literal nil, a block that is nil by exhaustion with a last consequence, a variable bound to nil / nil reaching a later branch, a star pattern or tail call before a VM failure); their generator shapes are kept at a low rate and each is re-witnessed every run.",
+          "DESIGN.md §4 C02"),
   # id: (technique, level text, level note, design_ref)
   "C18": ("proptest-generated inputs + corpus mutation (prefix/token delete/dup/subst/transpose/wide-char) + bracket nests to depth 100; oracle: no panic, located error, deterministic production budget",
           "Generated-input search over front-end inputs: every run parses ~10^5 generated/mutated texts and compiles the accepted ones, checking no panic, error position inside the input on a char boundary with consistent line/column, and a polynomial production budget via hook H5. Exploration only: absence is not established.",
